@@ -8,6 +8,7 @@ import (
 	"go/token"
 	"go/types"
 	"path/filepath"
+	"sort"
 	"strconv"
 	"strings"
 
@@ -337,4 +338,101 @@ func runCP(c *Ctx, s *Sink) {
 			s.Fail(nil, k, fd.Pos(), "raw pointers to the C hit stacks are read after the last reference to the sequence: its finalizer may free them during the copy loop (SIGSEGV on a 2 Mb sequence, garbage hits on small ones)")
 		}
 	}
+}
+
+func init() {
+	register(&Rule{
+		ID: "KA", Props: []string{"C10", "C05", "C11"}, Min: 4,
+		Doc: `the C structures of pkg/obiapat live as long as the C code reads them: a Go wrapper (ApatSequence, ApatPattern) owns a C structure that its finalizer frees. In every function of the
+package, a receiver or parameter of one of these types whose C structure (x.pointer.pointer) is handed to a C function — seen through the closure cgo generates — is referenced after the last such
+call (runtime.KeepAlive or any use): otherwise the wrapper is dead once the arguments are evaluated, a garbage collection during the call runs the finalizer and the C search reads freed memory.
+IsMatching (obigrep --approx-pattern, obiannotate) on 3 Mbp sequences died with SIGSEGV in 7 runs out of 12 and selected the expected 80 records in the others.`,
+		Run: runKA,
+	})
+}
+
+func runKA(c *Ctx, s *Sink) {
+	c.EachFunc([]string{"pkg/obiapat"}, func(pp *packages.Package, fd *ast.FuncDecl) {
+		info := pp.TypesInfo
+		wrappers := map[types.Object]bool{}
+		add := func(fl *ast.FieldList) {
+			for _, id := range flattenParams(fl) {
+				if id == nil {
+					continue
+				}
+				if o := info.ObjectOf(id); o != nil {
+					n := namedTypeName(derefType(o.Type()))
+					if strings.HasSuffix(n, ".ApatSequence") || strings.HasSuffix(n, ".ApatPattern") {
+						wrappers[o] = true
+					}
+				}
+			}
+		}
+		add(fd.Recv)
+		add(fd.Type.Params)
+		if len(wrappers) == 0 {
+			return
+		}
+		lastCall := map[types.Object]token.Pos{}
+		ast.Inspect(fd.Body, func(nd ast.Node) bool {
+			call, ok := nd.(*ast.CallExpr)
+			if !ok {
+				return true
+			}
+			// cgo turns C.f(x.pointer.pointer, …) into func() T { _cgo0 := x.pointer.pointer; …; return _Cfunc_f(_cgo0, …) }()
+			scan := []ast.Node{}
+			if lit, ok := ast.Unparen(call.Fun).(*ast.FuncLit); ok {
+				isC := false
+				ast.Inspect(lit.Body, func(m ast.Node) bool {
+					if id, ok := m.(*ast.Ident); ok && strings.HasPrefix(id.Name, "_Cfunc_") {
+						isC = true
+					}
+					return true
+				})
+				if !isC {
+					return true
+				}
+				scan = append(scan, lit.Body)
+			} else {
+				name := types.ExprString(call.Fun)
+				if !strings.HasPrefix(name, "C.") && !strings.Contains(name, "_Cfunc_") {
+					return true
+				}
+				for _, a := range call.Args {
+					scan = append(scan, a)
+				}
+			}
+			for _, a := range scan {
+				ast.Inspect(a, func(m ast.Node) bool {
+					if sel, ok := m.(*ast.SelectorExpr); ok && sel.Sel.Name == "pointer" {
+						if o := rootObj(info, sel.X); o != nil && wrappers[o] && call.End() > lastCall[o] {
+							lastCall[o] = call.End()
+						}
+					}
+					return true
+				})
+			}
+			return true
+		})
+		var objs []types.Object
+		for o := range lastCall {
+			objs = append(objs, o)
+		}
+		sort.Slice(objs, func(i, j int) bool { return objs[i].Pos() < objs[j].Pos() })
+		for _, o := range objs {
+			k := funcName(pp, fd) + ":" + o.Name() + "-alive-across-C-call"
+			later := false
+			ast.Inspect(fd.Body, func(nd ast.Node) bool {
+				if id, ok := nd.(*ast.Ident); ok && info.Uses[id] == o && id.Pos() >= lastCall[o] {
+					later = true
+				}
+				return true
+			})
+			if later {
+				s.Pass(nil, k, fd.Pos(), "the wrapper is referenced after the last C call that works on its C structure")
+			} else {
+				s.Fail(nil, k, lastCall[o], "the C structure of "+o.Name()+" is handed to a C function and "+o.Name()+" is not referenced afterwards (no runtime.KeepAlive): a garbage collection during the call runs its finalizer and frees the memory the C code is reading — obigrep --approx-pattern on 3 Mbp sequences dies with SIGSEGV in 7 runs out of 12, or selects a different set of records")
+			}
+		}
+	})
 }
